@@ -94,8 +94,9 @@ class RecordCall(object):
     Event('repo-call', meth=<qualname>, args=[...]) and returns `ret`."""
     inline = False
 
-    def __init__(self, ret=None):
+    def __init__(self, ret=None, ret_fn=None, may_raise=False):
         self.ret = ret
+        self.ret_fn = ret_fn        # fn(engine, st) -> value   (fresh symbolic result per call)
 
     def apply(self, engine, st, fr, func, args, kwargs, star, starkw, node):
         from pyvc.state import Event
@@ -104,8 +105,9 @@ class RecordCall(object):
         if isinstance(star, TupleV):
             args += list(star.items)
         st.trace.append(Event("repo-call", meth=func.qualname, args=[engine.to_val(st, a) for a in args],
-                              kwargs={k: engine.to_val(st, v) for k, v in kwargs.items()}, site=engine.site(fr, node)))
-        yield st, self.ret
+                              kwargs={k: engine.to_val(st, v) for k, v in kwargs.items()}, site=engine.site(fr, node),
+                              held=list(st.held)))
+        yield st, (self.ret_fn(engine, st) if self.ret_fn else self.ret)
 
 
 def simulate_callback(engine, st, fr, cb, arg, prepare=None):
